@@ -37,6 +37,8 @@ type SCall struct {
 	inv   int64
 	ret   int64
 	pub   []klevdb.Message
+
+	panicked bool
 }
 
 func (c *SCall) String() string {
@@ -63,7 +65,19 @@ func (c *SCall) String() string {
 	return fmt.Sprintf("%s->%v", c.Kind, c.rerr)
 }
 
+// run executes the call; a panic inside it is recorded as its (inadmissible) result instead of killing the
+// test process from a goroutine that cannot report it.
 func (c *SCall) run(l klevdb.Log) {
+	defer func() {
+		if r := recover(); r != nil {
+			c.rerr = fmt.Errorf("PANIC: %v", r)
+			c.panicked = true
+		}
+	}()
+	c.runInner(l)
+}
+
+func (c *SCall) runInner(l klevdb.Log) {
 	switch c.Kind {
 	case "publish":
 		c.pub = make([]klevdb.Message, len(c.Msgs))
@@ -96,6 +110,9 @@ func (c *SCall) run(l klevdb.Log) {
 
 // step checks the observed result of c against model state s (the sequential contract) and returns the next state.
 func (c *SCall) step(s *Model) (bool, *Model) {
+	if c.panicked {
+		return false, s
+	}
 	switch c.Kind {
 	case "publish":
 		if c.rerr != nil || c.rnext != s.Next+int64(len(c.pub)) {
